@@ -288,9 +288,18 @@ EXTENSION_QUERIES = [
 ]
 COMPOUND_QUERIES = [
     "$.a | $.b", "$.b[*] & $.b[0:2]", "$.b[*] | $.b[*]", "$..a | $..b | $.c1", "$.b[*] & $.b[*] & $.b[1:]", "$[*] & $[0:2] | $[-1]",
-    "$.a[*] & $.b[*] & $.c[*]", "$[0] | $[1] & $[1]", "$.a[*] & $.b[*]", "$.x | $.a[*].b[*]", "$.a | ^[?@.a]", "^[?@.b] | $.b", "$.c | $.b | ^[?@.c]",
+    "$.a[*] & $.b[*] & $.c[*]", "$.a[*] | $.b[*] & $.c[*]", "$.c[*] & $.b[*] & $.a[*]", "$.a[*] & $.b[*] | $.c[*] & $.b[*]", "$[0] | $[1] & $[1]", "$.a[*] & $.b[*]", "$.x | $.a[*].b[*]", "$.a | ^[?@.a]", "^[?@.b] | $.b", "$.c | $.b | ^[?@.c]",
 ]
-COMPOUND_DOCS = [{"a": [1, 2, 3], "b": [3, 2, 1], "c": [2, 3, 4]}, {"a": [1, 2, 3], "b": [2, 3, 4], "c": [3, 4, 5]}, [1, 2, 3, 2, 1]]
+COMPOUND_DOCS = [
+    {"a": [1, 2, 3], "b": [3, 2, 1], "c": [2, 3, 4]},
+    {"a": [1, 2, 3], "b": [2, 3, 4], "c": [3, 4, 5]},
+    [1, 2, 3, 2, 1],
+    # operands whose later intersections are weaker than the earlier ones (order and binding matter)
+    {"a": [1, 2, 3], "b": [1, 2], "c": [1, 2, 3]},
+    {"a": [3, 1], "b": [1], "c": [3, 1]},
+    {"a": [1, 2], "b": [3, 4], "c": [4, 2]},
+    {"a": [1], "b": [3], "c": [5]},
+]
 
 
 def mixed_queries(tier, seed):
